@@ -567,3 +567,66 @@ def check(run, prog, tier):
                    "path %s reaches the discard at line %s without asking cmd_in_buf(): pasted short lines that fill the buffer are thrown away although each is a complete command" % (p[:8], n.get("l")), gud.file, n.get("l"), "get_user_data",
                    what="get_user_data discards buffered complete commands as if they were one over-long line")
     run.need(nd >= 1, "discard of the input buffer (found %d)" % nd)
+
+    # ---- C13-k the two cursors of the input buffer stay ordered
+    run.rule("C13-k", "interactive_t.text_start <= text_end: a store that sets text_end to a constant (throwing buffered input away) is made with text_start known to be 0 on every path to it - assigned 0, or the failing edge of a `text_start > 0` test with no store since - or together with `text_start = 0` in the same straight-line block; otherwise the next read is parsed from a stale start beyond the end (lost bytes, a negative length handed to memchr)", 4)
+    from dataflow import solve as _solve
+    nk = 0
+    for f in sorted([g for g in comm.funcs.values()], key=lambda x: x.line):
+        lows = [(b, i, n) for b, i, n in f.nodes() if n.get("k") == "Asg" and n.get("op") == "=" and strip(n["L"]).get("k") == "Mem" and strip(n["L"]).get("f") == "text_end"
+                and (const_val(n["R"]) is not None)]
+        if not lows:
+            continue
+
+        def is_zero_store(n):
+            if not (n.get("k") == "Asg" and n.get("op") == "=" and strip(n["L"]).get("k") == "Mem" and strip(n["L"]).get("f") == "text_start"):
+                return None
+            r = strip(n["R"])
+            while r.get("k") == "Asg" and r.get("op") == "=":
+                r = strip(r["R"])
+            return const_val(r) == 0
+
+        def transfer(blk, st):
+            for e in blk.el:
+                for x in walk(e, True):
+                    z = is_zero_store(x)
+                    if z is not None:
+                        st = "Z" if z else "U"
+                    elif x.get("k") in ("Asg", "Un") and strip(x.get("L") or x.get("e") or {}).get("k") == "Mem" and strip(x.get("L") or x.get("e")).get("f") == "text_start" and (x.get("k") == "Asg" or x.get("op") in ("++", "--")):
+                        st = "U"
+            return st
+
+        def edge(blk, idx, s, st):
+            c = f.branch_cond(blk)
+            if c is None or idx > 1:
+                return st
+            op, l, r = atom_of(c, idx == 0)
+            l0 = strip(l) if l is not None else {}
+            if l0.get("k") == "Mem" and l0.get("f") == "text_start":
+                if (op in ("<=", "==") and r is not None and const_val(r) == 0) or op == "false" or (op == "<" and r is not None and const_val(r) == 1):
+                    return "Z"
+            return st
+
+        ins = _solve(f, "U", transfer, edge, lambda a, b: a if a == b else "U")
+        for j, (b, i, n) in enumerate(lows):
+            nk += 1
+            run.saw(f)
+            st = ins.get(b.id, "U")
+            # state just before the store inside its block, and stores of text_start = 0 in the same block
+            for ei, e in enumerate(b.el):
+                for x in walk(e, True):
+                    if x is n:
+                        break
+                    z = is_zero_store(x)
+                    if z is not None:
+                        st = "Z" if z else "U"
+                else:
+                    continue
+                break
+            same_block = any(is_zero_store(x) for e in b.el for x in walk(e, True))
+            chained = any(x.get("k") == "Asg" and strip(x["L"]).get("f") == "text_start" and any(y is n for y in walk(x["R"])) for e in b.el for x in walk(e))
+            ok = st == "Z" or same_block or chained
+            run.ob("C13-k", "lower:%s:%d" % (f.name, j), ok, "`%s` with text_start %s" % (show(n)[:40], "known to be 0" if st == "Z" else "set to 0 in the same block") if ok else
+                   "`%s` (line %s) can be reached with text_start > 0: the kept input is thrown away but its start is not, so text_start > text_end afterwards" % (show(n)[:40], n.get("l")), f.file, n.get("l"), f.name,
+                   what="%s lowers text_end without text_start: the next read is parsed from a stale start" % f.name)
+    run.need(nk >= 4, "stores that set text_end to a constant (found %d)" % nk)
